@@ -258,6 +258,46 @@ theorem mintRun_live (cfg : Cfg) (p : Mint.Params) (hv : Mint.paramsValid p = tr
     simp only at i3 i4
     exact ⟨i1, i2, by omega, by omega⟩
 
+/-- the same with a parameter set per block: parameter updates between blocks cannot break liveness as long as each
+    installed set is live -/
+theorem mintRunUpd_live (cfg : Cfg) :
+    ∀ (ps : List Mint.Params) (h : Int) (c : Chain), 1 ≤ h → c.halted = false → MinterOK c.minter →
+      (∀ p ∈ ps, Mint.paramsValid p = true ∧ MintLive p ∧ (cfg.mintClamp = true ∨ p.exclude ≤ c.supply)) →
+      (mintRunUpd cfg ps h c).halted = false ∧ MinterOK (mintRunUpd cfg ps h c).minter ∧
+      c.supply ≤ (mintRunUpd cfg ps h c).supply := by
+  intro ps
+  induction ps with
+  | nil => intro h c _ hh hm _; exact ⟨hh, hm, Int.le_refl _⟩
+  | cons p rest ih =>
+    intro h c h1 hh hm hall
+    obtain ⟨hv, hl, hs⟩ := hall p (List.mem_cons_self ..)
+    have hbase : p.exclude ≤ (if (cfg.mintClamp && decide (c.supply < p.exclude)) = true then p.exclude else c.supply) := by
+      split
+      · exact Int.le_refl _
+      · rename_i hc
+        rcases hs with hcl | hle
+        · simp only [hcl, Bool.true_and, decide_eq_true_eq] at hc; omega
+        · exact hle
+    obtain ⟨m', k, hbb, hk, hm'⟩ := beginBlock_live p c.minter h _ hv hl h1 hbase hm
+    have hstep : mintChainBegin cfg p c h =
+        { supply := c.supply + k, collector := c.collector + k, minter := m', halted := false } := by
+      unfold mintChainBegin mintBeginBlock
+      simp only [hh, Bool.false_eq_true, if_false, hbb]
+    have := ih (h + 1) (mintChainBegin cfg p c h) (by omega) (by rw [hstep]) (by rw [hstep]; exact hm')
+      (by
+        intro q hq
+        obtain ⟨qv, ql, qs⟩ := hall q (List.mem_cons_of_mem _ hq)
+        refine ⟨qv, ql, ?_⟩
+        rw [hstep]
+        rcases qs with hcl | hle
+        · exact Or.inl hcl
+        · exact Or.inr (by show q.exclude ≤ c.supply + k; omega))
+    simp only [mintRunUpd]
+    rw [hstep] at this ⊢
+    obtain ⟨i1, i2, i3⟩ := this
+    simp only at i3
+    exact ⟨i1, i2, by omega⟩
+
 /-- parameters accepted by the validators of params_mint_validate.diff are live -/
 theorem validate_patched_live (cfg : Cfg) (hc : cfg.mintValidate = true) (m : MintParams)
     (h : MintParams.validate cfg m = true) : Mint.paramsValid m.p = true ∧ MintLive m.p := by
